@@ -3,6 +3,8 @@
 HOOK_COMMITS = []
 NOT_BUILT = {}
 ENGINES = [
+    dict(name="faketc", path="harness/faketc", serves_properties=["C04", "C05", "C07", "C14", "C15", "C19"],
+         kind_free_text="in-process Seata coordinator stand-in attached through a fake getty.Session (scripts, journal on a logical clock, phase-two origination)"),
     dict(name="refwire", path="harness/refwire", serves_properties=["C12", "C13", "C15"],
          kind_free_text="independent Seata v1 layout table (encoder, decoder, framer) used as differential oracle"),
 ]
@@ -21,4 +23,11 @@ PROPS = {
                     technique="property-based testing over message sequences and stream partitions (exhaustive 1-/2-cut partitions for short streams) through a transcribed getty read loop; native fuzzing in the thorough tier",
                     text="Generated frame sequences (real Write and an independent framer) are cut at every 1-/2-cut position (streams ≤96 bytes) or at generated positions biased into headers and head maps, and pushed through a transcription of getty's handleTCPPackage loop around the real reader; delivered messages, consumed lengths, delivery time, leftovers, errors, panics and zero-length consumption (spin) are judged; garbage and corrupted streams are judged for panic/spin only. Sampling plus small exhaustive sub-spaces.",
                     note="Trusted: the transcription of getty 1.5.0's read loop (feed()), harness/refwire framer.")),
+    "C04": dict(pkg="./props/c04", level="exploration",
+                quick=dict(checks=120, shards=8, watchdog=900),
+                thorough=dict(checks=700, shards=16, watchdog=3000),
+                manifest=dict(engine="faketc",
+                    technique="property-based fault-sequence testing (rapid) of tm.WithGlobalTx against a reference model of the statement, with a scripted in-process coordinator",
+                    text="Generated tuples (callback outcome, role, retry counts, begin reaction, k transport errors then ok/failure result, cancellation point; thorough: no reply) are run through the real tm.WithGlobalTx against a scripted fake coordinator attached at the getty seam; the journal of begin/commit/rollback attempts per xid and the return value (nil / error / re-raised panic / crash / hang) are compared with a reference model written from the statement. Sampling of the tuple space (≈10^4 tuples), no proof.",
+                    note="Trusted: faketc (coordinator stand-in), the reference model in props/c04; real backoff sleeps are kept. Under cancellation only the weak reading is enforced (DESIGN §5 C04).")),
 }
